@@ -63,6 +63,8 @@ class Consts:
         # which of the repairs proposed in findings/C05.proposed.json the tree under test carries (the model
         # follows repaired code): subset of {"wap", "gemini", "spartan"}; set when a fix: commit lands
         self.fixes = ["wap", "gemini"]
+        if os.environ.get("VERIF_C05_FIXES") is not None:        # development: try a proposed repair in a scratch copy
+            self.fixes = [x for x in os.environ["VERIF_C05_FIXES"].split(",") if x]
 
     def tla_files(self, sets=None):
         """Generated constants module.  Sets of strings go here too: a TLC configuration file does not process
@@ -143,7 +145,12 @@ def _zip_bytes(members):
 
 
 def fs_name_of(case) -> str:
-    return case["n"] + (".zip" if case["k"] == "zip" else "")
+    return case["n"] + {"zip": ".zip", "mapfile": ".gophermap"}.get(case["k"], "")
+
+
+def map_file(target: bytes) -> bytes:
+    """A named gophermap file: info line, relative selector, description only, absolute selector (Links!MapLines)."""
+    return b"a map file\n0relative\t" + target + b"\n0" + target + b"\t\n0absolute\t/zz\n"
 
 
 def materialise(w, case, hi_byte=0xFF, extra=None):
@@ -155,6 +162,8 @@ def materialise(w, case, hi_byte=0xFF, extra=None):
     w.write("zz", DOC % b"zz")
     if k == "file":
         w.write(n, DOC % b"subject")
+    elif k == "mapfile":
+        w.write(n, map_file(b"zz"))
     elif k == "mbox":
         w.write(n, MBOX_MSG)
     elif k == "maildir":
@@ -163,7 +172,10 @@ def materialise(w, case, hi_byte=0xFF, extra=None):
         w.write(n + "/new/msg1", MAIL_MSG)
     elif k in ("dir", "mapdir"):
         w.mkdir(n)
-        if ik == "dir":
+        if ik == "mapfile":
+            w.write(n + "/" + m + ".gophermap", map_file(b"leaf"))
+            w.write(n + "/leaf", DOC % b"leaf")
+        elif ik == "dir":
             w.write(n + "/" + m + "/leaf", DOC % b"leaf")
         else:
             w.write(n + "/" + m, DOC % b"inner")
@@ -257,6 +269,14 @@ def follow(p, t, base, q, k: Consts) -> dict:
     if p == "S":
         return {"line": "%s %s %d\r\n" % (k.server_name, path, len(q)), "rest": q, "tls": tls}
     raise ValueError(p)
+
+
+BROWSER_HEADERS = ("Host: localhost\r\nAccept: text/html,application/xhtml+xml,*/*;q=0.8\r\n"
+                   "Accept-Encoding: gzip, deflate\r\nUser-Agent: Mozilla/5.0 (verif)\r\n")      # = Links!BrowserHeaders
+
+
+def with_headers(rq, hdr):
+    return dict(rq, rest=BROWSER_HEADERS + rq["rest"]) if hdr else rq
 
 
 def send(w, rq, k: Consts):
